@@ -637,3 +637,7 @@ def mentions_const(e, c):
     if z3.eq(e, c):
         return True
     return any(mentions_const(ch, c) for ch in e.children())
+
+from vt.contract import track as _track  # noqa: E402
+
+_track(SAVE.calls, SAVE_LANES, GRADS, (UNI, "sample_calls"), (UNI, "logpdf_calls"), (NRM, "sample_calls"), (NRM, "logpdf_calls"))
